@@ -189,6 +189,13 @@ def inst_C12(profile):
                     "C12.C12_contains @C (codec_okb_sound @C @INST)"], codecs=["iupac"])(profile)
     obs.append({"name": "IUPAC codes are the documented nucleotide sets (bit 3 = A .. bit 0 = T)",
                 "expr": "iupac_check iupac", "lift": ["C05Check.iupac_check_sound iupac @INST"]})
+    obs.append({"name": "complementing an IUPAC code complements each member of its set (A<->T, C<->G: the "
+                        "4-bit code reversed)",
+                "expr": "forallb (fun x => opt_eqb (comp_sym iupac x) (Some (of_bits (rev (to_bits 4 x))))) "
+                        "(c_items iupac) && comp_letters_check iupac",
+                "witness": "find (fun x => negb (opt_eqb (comp_sym iupac x) (Some (of_bits (rev (to_bits 4 x)))))) "
+                           "(c_items iupac)",
+                "witness_meaning": "an IUPAC code whose complement is not the member-wise complement"})
     obs.append({"name": "Iupac::from(Dna) is the singleton set of the base",
                 "expr": "forallb (fun p => N.eqb (snd p) (base_bit (fst p))) dna_to_iupac && "
                         "Nat.eqb (length dna_to_iupac) 4"})
